@@ -100,8 +100,14 @@ def programs(tier):
         for label, edges, order in G.graphs(n, m):
             kinds = "+".join(sorted({kd for _i, _j, kd in edges})) or "none"
             out.append(("g:" + label, f"graph/{kinds}", gen.base_doc(G.components(n, edges, order), paths=G.paths(n)), {}, {"kind": "shape"}))
+    # properties that declare a default, required or not, declared before / after a property without one
+    from checks import c02
+    for c in c02._default_cases(tier):
+        if tier == "quick" and "other-opt" in c["labels"]:
+            continue
+        p = c["payload"]
+        out.append(("d:" + "|".join(c["labels"]), "defaults/" + p["targets"][0]["key"].split("/", 1)[1], p["doc"], p["options"], {"kind": "c02", "targets": p["targets"]}))
     if tier == "thorough":
-        from checks import c02
         for c in c02._single_cases("quick"):
             p = c["payload"]
             out.append(("k:" + "|".join(c["labels"]), "kinds/" + p["targets"][0]["key"] + ("/lit" if p["options"].get("literal_enums") else ""), p["doc"], p["options"], {"kind": "c02", "targets": p["targets"]}))
